@@ -323,10 +323,29 @@ _G = {}
 
 def _ob_worker(task):
     idx, level, timeout_ms, seed, use_cvc5, cvc5_timeout_s = task
-    from . import vcprep
-
     eng, obs = _G["eng"], _G["obs"]
     ob = obs[idx]
+    _, r = _solve_one(eng, ob, idx, level, timeout_ms, seed, use_cvc5, cvc5_timeout_s)
+    hidden = (ob.meta or {}).get("hidden_axioms")
+    if hidden and r["status"] in ("sat", "sat-core"):
+        # the model may only exist because opaque ghost definitions were hidden: decide again with them
+        import copy
+
+        ob2 = copy.copy(ob)
+        ob2.hyps = list(ob.hyps) + list(hidden)
+        ob2.meta = {k: v for k, v in ob.meta.items() if k != "hidden_axioms"}
+        if hasattr(ob2, "_rels"):
+            del ob2._rels
+        _, r2 = _solve_one(eng, ob2, idx, level, timeout_ms, seed, use_cvc5, cvc5_timeout_s)
+        r2["time"] = r2.get("time", 0.0) + r.get("time", 0.0)
+        r2["log"] = list(r.get("log", [])) + [("reveal-all-opaque-definitions", r2["status"], 0.0)] + list(r2.get("log", []))
+        r = r2
+    return idx, r
+
+
+def _solve_one(eng, ob, idx, level, timeout_ms, seed, use_cvc5, cvc5_timeout_s):
+    from . import vcprep
+
     t0 = time.time()
     if ob.kind != "cover" and z3.is_true(ob.goal):
         return idx, dict(status="unsat", backend="syntactic (goal evaluates to True)", time=0.0, model=None, reason="trivial", log=[], prep=0.0)
